@@ -22,7 +22,9 @@ LEVEL_TEXT = (
     "and at every exhaustion signal: no packet for an externally stopped label, no repeated (label, strategy), "
     "per-label order inferral -> initial (pack order) -> set 0 -> set 1 ..., completeness when drained, sticky "
     "exhaustion, resumption after add, and the do_level contract. The same model judges the event streams of "
-    "real searches (all call interleavings the searcher itself produces)."
+    "real searches (all call interleavings the searcher itself produces); there the inferral work a packet stands for "
+    "is also judged as done completely: a class the searcher has finished its inferral packet on, and from which no "
+    "inferral rule was recorded, is one to which no inferral strategy applies other than one that produced it."
 )
 LEVEL_NOTE = (
     "Trusted: the event model below. Deliberately not asserted (the statement does not claim it): that an "
@@ -344,16 +346,72 @@ def judge_events(ctx, pack, events):
     return model
 
 
+def judge_inferral_work(ctx, searcher, pack):
+    """The inferral work of a label is done completely: a class on which the searcher
+    has finished its inferral packet (it is in ``inferral_expanded``) and from which no
+    inferral rule was recorded is one to which no inferral strategy applies - except a
+    strategy that itself produced the class (it is not tried again on its own result)."""
+    infs = [s_ for s_ in pack.inferral_strats]
+    if len(infs) < 1:
+        return
+    log = getattr(searcher.ruledb, "log", None)
+    if log is None:
+        return
+    cdb = searcher.classdb
+    from_label = {}  # parent label -> inferral strategies with a recorded rule from it
+    into_label = {}  # child label -> inferral strategies with a recorded unary rule into it
+    for start, ends, rule, _ in log:
+        strat = getattr(rule, "strategy", None)
+        if strat is None or not any(strat == i_ for i_ in infs):
+            continue
+        from_label.setdefault(start, []).append(strat)
+        if len(ends) == 1:
+            into_label.setdefault(ends[0], []).append(strat)
+    chains = 0
+    for label in sorted(getattr(searcher, "inferral_expanded", ())):
+        if label in from_label:
+            chains += 1
+            continue
+        try:
+            c = cdb.get_class(label)
+        except Exception:
+            continue
+        if c.is_empty():
+            continue
+        for strat in infs:
+            if any(strat == p_ for p_ in into_label.get(label, [])):
+                continue
+            try:
+                children = strat.decomposition_function(c)
+            except Exception:
+                continue
+            if children is None or (len(children) == 1 and children[0] == c):
+                continue
+            ctx.fail(
+                "inferral-incomplete",
+                f"label {label} ({c!r}) is done with its inferral work, no inferral rule was recorded from it, yet the inferral strategy {strat!r} applies to it "
+                f"(recorded inferral rules into it come from {into_label.get(label, [])!r}; inferral strategies {infs!r})",
+                "inferral-incomplete",
+            )
+            return
+    if chains >= 2:
+        ctx.label("inferral-chains>=2")
+
+
 def run_search_case(case, ctx):
     from vf.scenario import run_search, scenario_context
 
+    from vf.props.c04 import recording_db
+
     LQ = logging_queue_class()
     with scenario_context(case) as clock:
-        out = run_search(case, clock, classqueue=LQ)
+        out = run_search(case, clock, classqueue=LQ, ruledb=recording_db(case.get("db", "RuleDB")))
     if out.searcher is None:
         return
     events = out.searcher.classqueue.events
     pack = out.pack
+    if out.kind != "crash":
+        judge_inferral_work(ctx, out.searcher, pack)
     # tokens must be distinct for the duplicate check: a generated pack may
     # contain equal strategies in two places; skip such packs (counted)
     flat = list(pack.inferral_strats and [tuple(pack.inferral_strats)]) + [(s,) for s in pack.initial_strats] + [
@@ -385,7 +443,7 @@ def subchecks():
             name="search-events",
             run_case=run_search_case,
             strategy=lambda tier: gen.scenario(tier),
-            examples={"quick": 1500, "thorough": 80000},
+            examples={"quick": 4000, "thorough": 80000},
             case_timeout=20.0,
         ),
     ]
